@@ -395,7 +395,8 @@ type trimRec struct {
 	who        string
 	inv, ret   uint64 // window in stamps (background: start of the virtual instant .. last close)
 	last       uint64 // stamp of the last close
-	invT, retT time.Duration
+	invT, retT time.Duration // wall time
+	monoT      time.Duration // background trims: bubble time of the instant
 	precise    bool // window is known to contain the whole trim
 	count      int  // model connection count at the snapshot
 	snap       []psnap
@@ -444,8 +445,12 @@ type H struct {
 	pending    simsync.WaitGroup
 	nPending   int
 
-	lastT     time.Duration
-	instStart uint64
+	lastT         time.Duration // bubble time of the current instant
+	instStart     uint64
+	instStartWall time.Duration
+	offset        time.Duration // sum of the clock jumps so far
+	jumps         bool          // fault stratum: clock jumps are injected in this run
+	nDecay        map[string]int
 
 	mutations    int
 	storm        bool // protect-storm sub-mode: no sampled connection reads between the operations (they dilute the races)
@@ -454,15 +459,33 @@ type H struct {
 	forgot       map[*mpeer]bool // peers whose tracked connections the manager demonstrably lost (reported by compare)
 }
 
-func (h *H) now() time.Duration { return time.Since(h.t0) }
+// now is WALL time since the start of the run: what the manager's injected clock reads (bubble time plus
+// the clock jumps so far). Every time-dependent clause is judged in wall time.
+func (h *H) now() time.Duration { return time.Since(h.t0) + h.offset }
 
-// touch notes the first stamp of every virtual instant at which the harness sees anything.
+// mono is the bubble's time since the start of the run: what timers and tickers run on.
+func (h *H) mono() time.Duration { return time.Since(h.t0) }
+
+// touch notes the first stamp (and the wall time) of every virtual instant at which the harness sees anything.
 func (h *H) touch() {
-	if n := h.now(); n > h.lastT || h.instStart == 0 {
+	if n := h.mono(); n > h.lastT || h.instStart == 0 {
 		h.lastT = n
 		h.instStart = simrt.Stamp()
+		h.instStartWall = h.now()
 	}
 }
+
+// jumpClock is the wall clock of a process that gets suspended and resumed: Now()/Since()/Until() read
+// bubble time plus an offset that only ever jumps forward; everything that creates timers and tickers is the
+// bubble's clock unchanged, so nothing fires during a jump and whatever was armed before is late by it.
+type jumpClock struct {
+	clock.Clock
+	h *H
+}
+
+func (c jumpClock) Now() time.Time                  { return time.Now().Add(c.h.offset) }
+func (c jumpClock) Since(t time.Time) time.Duration { return c.Now().Sub(t) }
+func (c jumpClock) Until(t time.Time) time.Duration { return t.Sub(c.Now()) }
 
 func (h *H) cntChanged() {
 	lo, hi := h.count-h.remIn, h.count+h.addIn
@@ -617,11 +640,12 @@ func (h *H) snapshot(rec *trimRec) {
 }
 
 func (h *H) bgTrim() *trimRec {
-	n := h.now()
-	if h.bgCur != nil && h.stall == 0 && h.bgCur.invT == n {
+	n := h.mono()
+	if h.bgCur != nil && h.stall == 0 && h.bgCur.monoT == n {
 		return h.bgCur
 	}
-	rec := &trimRec{kind: kBg, who: "background", inv: h.instStart, invT: n, precise: h.stall == 0}
+	// the trim read the clock at or after the start of this instant: judge eligibility at that wall time
+	rec := &trimRec{kind: kBg, who: "background", inv: h.instStart, invT: h.instStartWall, monoT: n, precise: h.stall == 0}
 	if h.stall != 0 {
 		// with stalls a background trim may have started at any earlier instant and two trims may
 		// share an instant: every close is its own record with a window from the start of the run
@@ -671,10 +695,11 @@ const (
 	opForce
 	opRead
 	opCheckLimit
+	opJump
 	nOps
 )
 
-var opWeights = []int{10, 2, 4, 2, 6, 2, 3, 3, 1, 3, 2, 6, 5, 2, 1, 1}
+var opWeights = []int{10, 2, 4, 2, 6, 2, 3, 3, 1, 3, 2, 6, 5, 2, 1, 1, 3}
 
 type op struct {
 	kind, peer, a, b, c int
@@ -683,10 +708,10 @@ type op struct {
 // sharedWeights: shared-peer mode — several tasks write the same peers' tags and protection sets.
 // No duplicate notifications there (a duplicate Connected racing a Disconnected of the same connection
 // would make the tracked set itself order-dependent).
-var sharedWeights = []int{3, 0, 2, 0, 5, 3, 8, 2, 0, 8, 8, 2, 5, 1, 1, 0}
+var sharedWeights = []int{3, 0, 2, 0, 5, 3, 8, 2, 0, 8, 8, 2, 5, 1, 1, 0, 1}
 
 // protectStormWeights: shared-peer mode dominated by Protect/Unprotect calls of several tasks on one peer.
-var protectStormWeights = []int{2, 0, 1, 0, 2, 1, 3, 1, 0, 12, 12, 1, 4, 1, 1, 0}
+var protectStormWeights = []int{2, 0, 1, 0, 2, 1, 3, 1, 0, 12, 12, 1, 4, 1, 1, 0, 0}
 
 func genOps(g simrt.Gen, n int, peers []int, weights []int) []op {
 	ops := make([]op, n)
@@ -702,7 +727,7 @@ func (h *H) sleepTable() []time.Duration {
 	// the last entry sleeps to the next tick of the background trim loop (ticks at multiples of the
 	// silence period after construction), so that operations race with a background trim
 	t := []time.Duration{time.Second, 5 * time.Second, h.grace, h.grace + time.Second, h.silence, 2*h.silence + time.Second, h.resol, 90 * time.Second,
-		h.silence - h.now()%h.silence}
+		h.silence - h.mono()%h.silence}
 	for i, d := range t {
 		if d <= 0 {
 			t[i] = time.Second
@@ -906,7 +931,7 @@ func (h *H) exec(who string, i int, o op) {
 	case opTrim:
 		if h.concurrent && o.c%2 == 1 {
 			// race the explicit trim with the background loop's trim (which does not take the trim mutex)
-			d := h.silence - h.now()%h.silence
+			d := h.silence - h.mono()%h.silence
 			logf("sleep %v to the next background tick", d)
 			simrt.TimeSleep(d)
 		}
@@ -932,6 +957,20 @@ func (h *H) exec(who string, i int, o op) {
 		if info.LowWater != h.low || info.HighWater != h.high || info.GracePeriod != h.grace {
 			h.o.Violate("C14/info-config", "GetInfo() = %+v, configured low=%d high=%d grace=%v", info, h.low, h.high, h.grace)
 		}
+	case opJump:
+		if !h.jumps {
+			logf("sleep 1s (no clock jumps in this run)")
+			simrt.TimeSleep(time.Second)
+			return
+		}
+		tab := []time.Duration{time.Second, 30 * time.Second, h.grace - time.Second, h.grace + time.Second, 10 * time.Minute, 3 * time.Hour}
+		d := tab[o.a%len(tab)]
+		if d <= 0 {
+			d = time.Second
+		}
+		h.offset += d
+		h.o.Fault("clock-jump")
+		logf("CLOCK JUMP +%v (suspend/resume: Now() jumps, no timer fires); wall is now +%v, timers are at +%v", d, h.now(), h.mono())
 	case opCheckLimit:
 		lim := h.high - 1 + o.a%3
 		err := cm.CheckLimit(limiter(lim))
@@ -1326,6 +1365,8 @@ func run(t *testing.T, tape *simrt.Tape) *common.Outcome {
 
 	// stratum first
 	concurrent := g.Weighted(3, 2) == 1
+	h.jumps = g.Chance(1, 3) // fault stratum drawn right after the stratum: clock jumps or none
+	h.nDecay = map[string]int{}
 	h.low = g.Range(1, 4)
 	h.high = h.low + g.Int(5)
 	h.grace = []time.Duration{0, 10 * time.Second, 20 * time.Second, time.Minute}[g.Int(4)]
@@ -1393,7 +1434,7 @@ func run(t *testing.T, tape *simrt.Tape) *common.Outcome {
 				ops := genOps(g, g.Range(5, 20), own, opWeights)
 				for i := range ops {
 					switch ops[i].kind {
-					case opSleep, opTrim, opForce, opRead, opCheckLimit:
+					case opSleep, opTrim, opForce, opRead, opCheckLimit, opJump:
 					default:
 						ops[i].kind = opTrim
 					}
@@ -1407,6 +1448,9 @@ func run(t *testing.T, tape *simrt.Tape) *common.Outcome {
 	stratum := map[bool]string{false: "sequential", true: "concurrent"}[concurrent]
 	if sharedSet != nil {
 		stratum = fmt.Sprintf("concurrent/shared-peers(%d)", len(sharedSet))
+	}
+	if h.jumps {
+		stratum += "+clock-jumps"
 	}
 	o.Logf("stratum=%s low=%d high=%d grace=%v silence=%v resolution=%v peers=%d decaying-tags=%d stall=%d",
 		stratum, h.low, h.high, h.grace, h.silence, h.resol, nPeers, nD, h.stall)
@@ -1422,8 +1466,8 @@ func run(t *testing.T, tape *simrt.Tape) *common.Outcome {
 		h.t0 = time.Now()
 		h.localAddr = ma.StringCast("/ip4/10.9.9.9/tcp/4001")
 		cm, err := connmgr.NewConnManager(h.low, h.high,
-			connmgr.WithGracePeriod(h.grace), connmgr.WithSilencePeriod(h.silence), connmgr.WithClock(clock.New()),
-			connmgr.DecayerConfig(&connmgr.DecayerCfg{Resolution: h.resol, Clock: clock.New()}))
+			connmgr.WithGracePeriod(h.grace), connmgr.WithSilencePeriod(h.silence), connmgr.WithClock(jumpClock{clock.New(), h}),
+			connmgr.DecayerConfig(&connmgr.DecayerCfg{Resolution: h.resol, Clock: jumpClock{clock.New(), h}}))
 		if err != nil {
 			o.Trouble = "NewConnManager: " + err.Error()
 			return
